@@ -137,6 +137,15 @@ def guard_facts(f, site, resolve=None):
     (facts set, list of (cond node, polarity))."""
     gs = f.cfg.guards(site)
     out = set()
+    if resolve is None:
+        # a condition held in a const boolean local is the same guard: look through const locals by default
+        resolve = getattr(f, "_const_locals_cache", None)
+        if resolve is None:
+            resolve = X.const_locals(f)
+            try:
+                f._const_locals_cache = resolve
+            except AttributeError:
+                pass
     for cid, pol in gs:
         out |= facts(f, f.nodes[cid], pol, resolve)
     return out, gs
